@@ -36,6 +36,12 @@
 #define VERIF_FAMS ( 32 | 128 )
 #endif
 #define VERIF_CTLS ( 1 << ACT_CTL )
+#elif defined( SPACE_COV )
+#define VERIF_K 3
+#define VERIF_GROUPS ( T::G_CORE | T::G_MUST | T::G_EXC )
+#define VERIF_FAMS ( 2 | 32 )
+#define VERIF_CTLS 1
+#define VERIF_COV
 #elif defined( SPACE_TREE )
 // -DTREE_SEL=k selects the selector / transformer variant (engine/tree.hpp)
 #define VERIF_K 3
@@ -304,6 +310,26 @@ struct Space
 #else
          p.cfgs = cfg_product( { 7 }, { ACT_CTL }, { 1 }, { 1, 0 } );
 #endif
+         phases.push_back( p );
+      }
+#elif defined( SPACE_COV )
+      result_prop = "C08";
+      exc_prop = "C08";
+      check_actions = false;
+      {
+         // only operators whose sub-rules are all table rules: coverage keys its map by rule name and visits subs_t,
+         // and a table rule's subs_t lists table rules only (anonymous inner rules would be an artefact of the engine)
+         Phase p;
+         p.name = "coverage_counters";
+         p.root = { "STAR", "PLUS", "OPT", "AT", "NOT_AT", "SEQ", "SOR", "MUST", "TC_RF", "TC_ANY_RF" };
+         p.inner = { "ANY", "ONE_A", "EOF_", "SUCCESS", "STAR", "PLUS", "OPT", "AT", "NOT_AT", "SEQ", "SOR", "MUST", "TC_RF", "TC_ANY_RF" };
+         p.N = 3;
+         p.L = thorough ? 3 : 2;
+         p.sigma = "ab";
+         p.act_may_veto = true;
+         p.act_may_throw = true;
+         p.dev_bound = thorough ? 2 : 1;
+         p.cfgs = cfg_product( { 1, 5 }, { 0 }, { 1 }, { 0 } );
          phases.push_back( p );
       }
 #elif defined( SPACE_TREE )
